@@ -30,7 +30,7 @@ func (c06) ID() string { return "C06" }
 func (c06) Plan(tier string) fw.Plan {
 	p := fw.Plan{
 		Batches: 16, Cases: 24, TimeoutSec: 1200, Level: "fault_enumeration", Exhaustive: true,
-		Rule: "one case = one stored block (codec ∈ {dag-cbor, dag-json, cbor, json, raw}, hasher from go-multihash's core registry incl. identity and truncated digests, 1–300 bytes, incl. blocks whose decoder fails early / succeeds on a prefix / slurps trailing whitespace). For the block and each of Load, LoadRaw, LoadPlusRaw, Fill the storage boundary is faulted exhaustively: every single-bit flip at every offset, every truncation length, six appended-byte classes, substitution by other blocks, a read error after every k bytes, and a family of chunkings (1-byte, Fibonacci, mixed) of the unmodified block. Also: the storage opener failing (with and without a reader), loads into a prototype whose builder refuses the block's kind (a mismatch must outrank assembler errors too; an intact block must not be called a mismatch), and per batch three blocks of 4–64 KiB faulted at and around the 512/4096/32768/65536 buffer boundaries through five reader shapes. Store side: a writer failing at its k-th Write for every k and a node whose iterator fails after every k entries; the committer is a harness closure that records calls. Oracle: stdlib digest of the bytes the reader serves. exhaustive=true refers to these per-block fault classes. Distinct = distinct blocks; non-trivial = block ≥ 8 bytes.",
+		Rule:        "one case = one stored block (codec ∈ {dag-cbor, dag-json, cbor, json, raw}, hasher from go-multihash's core registry incl. identity and truncated digests, 1–300 bytes, incl. blocks whose decoder fails early / succeeds on a prefix / slurps trailing whitespace). For the block and each of Load, LoadRaw, LoadPlusRaw, Fill the storage boundary is faulted exhaustively: every single-bit flip at every offset, every truncation length, six appended-byte classes, substitution by other blocks, a read error after every k bytes, and a family of chunkings (1-byte, Fibonacci, mixed) of the unmodified block. Also: the storage opener failing (with and without a reader), loads into a prototype whose builder refuses the block's kind (a mismatch must outrank assembler errors too; an intact block must not be called a mismatch), and per batch three blocks of 4–64 KiB faulted at and around the 512/4096/32768/65536 buffer boundaries through five reader shapes. Store side: a writer failing at its k-th Write for every k and a node whose iterator fails after every k entries; the committer is a harness closure that records calls. Oracle: stdlib digest of the bytes the reader serves. exhaustive=true refers to these per-block fault classes. Distinct = distinct blocks; non-trivial = block ≥ 8 bytes.",
 		Assumptions: []string{"stdlib crypto digests + lib/ref/link decide whether served bytes hash to the link", "TrustedStorage is left false"},
 		MinEvents:   []string{"open_errors_injected", "big_block_faulted_loads", "faulted_loads", "bitflips", "truncations", "read_errors_injected", "chunkings", "store_writer_faults", "store_encoder_faults", "must_fail_observed", "must_succeed_observed"},
 	}
@@ -514,9 +514,15 @@ func c06BigBlocks(c *fw.Ctx, rng *fw.RNG) {
 		shapes := []func(d []byte, failAt int) *faultReader{
 			func(d []byte, f int) *faultReader { return &faultReader{data: d, failAt: f} },
 			func(d []byte, f int) *faultReader { return &faultReader{data: d, failAt: f, chunks: []int{4096}} },
-			func(d []byte, f int) *faultReader { return &faultReader{data: d, failAt: f, chunks: []int{512}, lastWithErr: true} },
-			func(d []byte, f int) *faultReader { return &faultReader{data: d, failAt: f, chunks: []int{4096, 1}, lastWithErr: true} },
-			func(d []byte, f int) *faultReader { return &faultReader{data: d, failAt: f, chunks: []int{1000, 3, 4096}} },
+			func(d []byte, f int) *faultReader {
+				return &faultReader{data: d, failAt: f, chunks: []int{512}, lastWithErr: true}
+			},
+			func(d []byte, f int) *faultReader {
+				return &faultReader{data: d, failAt: f, chunks: []int{4096, 1}, lastWithErr: true}
+			},
+			func(d []byte, f int) *faultReader {
+				return &faultReader{data: d, failAt: f, chunks: []int{1000, 3, 4096}}
+			},
 		}
 		for si, sh := range shapes {
 			mk := sh
